@@ -398,9 +398,24 @@ def run_config(prop, cfg_id, scenario, params, opts):
     # (1)+(2) translator validation on seeded concrete inputs: real torch vs shim
     nval = opts.get("validate", 2)
     res["shim_validation"] = {"runs": 0, "agree": 0, "skipped": 0}
+    real_only = opts.get("real_only", False)
     for k in range(nval):
         seed = SEED * 101 + k
         cr, er = run_concrete(scenario, params, "real", seed=seed)
+        if real_only:
+            # auxiliary concrete run of the oracle on the real code only (used where the symbolic engine cannot follow
+            # the code, e.g. numerically regularised singular solves); counted separately, never as a solver result
+            res.setdefault("real_only_runs", 0)
+            res["real_only_runs"] += 1
+            for c in cr.claims:
+                if c["status"] == "failed":
+                    res["violations"].append({"claim": c["name"], "detail": c["detail"], "source": "concrete-seeded",
+                                              "values": jsonable_vals(cr.inputs), "confirmed": True})
+            if er is not None and not isinstance(er, (PathAbort, Inconclusive, Skip)):
+                res["violations"].append({"claim": "no-unexpected-exception", "detail": cr.outcome[1],
+                                          "source": "concrete-seeded", "values": jsonable_vals(cr.inputs),
+                                          "confirmed": True, "tb": getattr(cr, "tb", None)})
+            continue
         if cr.outcome and isinstance(cr.outcome, tuple) and cr.outcome[0] == "skip":
             res["shim_validation"]["skipped"] += 1
             continue
@@ -454,7 +469,7 @@ def run_config(prop, cfg_id, scenario, params, opts):
             res["shim_validation"]["agree"] += 1
         else:
             res["harness_errors"].append("shim/torch disagreement (seed %d): %s" % (seed, why))
-    if opts.get("concrete_only"):
+    if opts.get("concrete_only") or real_only:
         res["wall_s"] = round(time.time() - t0, 2)
         return res
 
